@@ -1,7 +1,7 @@
 use anyhow::Result;
 use bytes::{Buf, BufMut, Bytes, BytesMut};
 use parking_lot::Mutex;
-use std::sync::atomic::{AtomicU16, AtomicUsize};
+use std::sync::atomic::{AtomicBool, AtomicU16, AtomicUsize};
 use tokio::sync::{Mutex as TokioMutex, mpsc};
 
 // DCEP Constants
@@ -155,6 +155,8 @@ pub struct DataChannel {
     tx: Mutex<Option<mpsc::UnboundedSender<DataChannelEvent>>>,
     rx: TokioMutex<mpsc::UnboundedReceiver<DataChannelEvent>>,
     pub(crate) reassembly_buffer: Mutex<BytesMut>,
+    /// True between the B and the E fragment of the message being reassembled.
+    pub(crate) reassembling: AtomicBool,
     pub(crate) send_lock: TokioMutex<()>,
 }
 
@@ -175,6 +177,7 @@ impl DataChannel {
             tx: Mutex::new(Some(tx)),
             rx: TokioMutex::new(rx),
             reassembly_buffer: Mutex::new(BytesMut::new()),
+            reassembling: AtomicBool::new(false),
             send_lock: TokioMutex::new(()),
         }
     }
